@@ -17,6 +17,7 @@ try:
     cfgs = ['all'] + (['default'] if '--both' in sys.argv else [])
     ctx = engine.Ctx(wt)
     total = 0
+    KNOWN = {k['key'] for k in engine.load_known() if k.get('status') == 'known'}
     for cfg in cfgs:
         for rid in sorted(engine.RULES):
             if rules and rid not in rules:
@@ -33,6 +34,8 @@ try:
             if len(res.instances) < ru.floor_for(cfg):
                 print('%s [%s] BELOW FLOOR %d<%d' % (rid, cfg, len(res.instances), ru.floor_for(cfg))); total += 1
             for v in res.violations:
+                if v.key in KNOWN:
+                    continue
                 total += 1
                 print('!! [%s] %s %s | %s' % (cfg, v.key, v.where.replace(wt + '/', ''), v.msg))
     fams = [a.split('=')[1] for a in sys.argv if a.startswith('--fam=')]
